@@ -169,6 +169,11 @@ def structural_decoding(rep: Report, prog: Program, rid: str) -> None:
                 defs.setdefault(n.targets[0].id, []).append(n.value)
             elif isinstance(n, ast.AnnAssign) and isinstance(n.target, ast.Name) and n.value is not None:
                 defs.setdefault(n.target.id, []).append(n.value)
+            elif isinstance(n, ast.Assign) and len(n.targets) == 1 and isinstance(n.targets[0], (ast.Tuple, ast.List)) \
+                    and isinstance(n.value, (ast.Tuple, ast.List)) and len(n.targets[0].elts) == len(n.value.elts):
+                for t_, v_ in zip(n.targets[0].elts, n.value.elts):
+                    if isinstance(t_, ast.Name):
+                        defs.setdefault(t_.id, []).append(v_)
 
         def keys_of(e: ast.AST, depth: int = 0) -> Set[str]:
             out: Set[str] = set()
